@@ -674,9 +674,9 @@ func C10(tier string) int {
 											stateBad = true
 										}
 										if k != "HasKey" {
-									k = "state"
-								}
-								run.Report(vf.Violation{Sig: fmt.Sprintf("%s|mut=%s|%s", drv, m.shape(), k),
+											k = "state"
+										}
+										run.Report(vf.Violation{Sig: fmt.Sprintf("%s|mut=%s|%s", drv, m.shape(), k),
 											Detail: fmt.Sprintf("driver %s state %s after %s: %s model %s driver %s", drv, S, m, want.labels[i], want.vals[i], got.vals[i]),
 											Replay: map[string]any{"driver": drv, "state": S.String(), "mutator": m.String(), "obs": want.labels[i]}})
 									}
